@@ -1,7 +1,8 @@
 IO_CODEC = ["IO/detail/Decoder.cc", "IO/detail/Encoder.cc", "IO/detail/WriteBuffer.cc"]
 _IO_HDR = ["IO/detail/Decoder.cc", "IO/detail/ovmb_codec.cc", "IO/detail/ovmb_format.cc", "IO/detail/Encoder.cc", "IO/detail/WriteBuffer.cc", "Core/Handles.cc"]
 _IO_PC6 = ["IO/PropertyCodecs.cc", "IO/detail/Decoder.cc", "IO/detail/Encoder.cc", "IO/detail/WriteBuffer.cc", "Core/ResourceManager.cc",
-           "Core/Properties/PropertyStorageBase.cc", "Core/detail/internal_type_name.cc", "Core/Handles.cc", "Core/BaseEntities.cc"]
+           "Core/Properties/PropertyStorageBase.cc", "Core/detail/internal_type_name.cc", "Core/Handles.cc", "Core/BaseEntities.cc",
+           "FileManager/TypeNames.cc", "FileManager/Serializers.cc"]   # the last two only satisfy the native (replay) link of PropertyStorageT<T>'s ASCII virtuals
 # id, ovmb name -- must match CODEC_TABLE in harness/io_codecs.h
 _CODECS6 = [(1, "u8"), (2, "u16"), (3, "u32"), (4, "u64"), (5, "i8"), (6, "i16"), (7, "i32"), (8, "i64"), (9, "f"), (10, "d"),
             (12, "vh"), (13, "eh"), (14, "heh"), (15, "fh"), (16, "hfh"), (17, "ch"),
@@ -36,11 +37,15 @@ def _c06_unit_jobs():
                     "deserialize identity, default value through serialize_default/request_property"),
     ]
     for (cid, name) in _CODECS6:
-        J.append(dict(name="propcodec-%s" % name, harness="C06_propcodecs.cpp", units=_IO_PC6, unwind=64, eh=True, checks="mem", timeout=300, mem_gb=4,
-                      defines=["CODEC=%d" % cid, "NELEM=3"], ll2c_flags=["--drop-ctor=PropertyCodecs.cc"], entries=["harness_roundtrip_n", "harness_roundtrip_default"],
-                      bounds="codec '%s': property of 3 elements with symbolic values (floating point as arbitrary bit patterns incl. NaNs), symbolic span {first,count}: serialize -> "
-                             "count*elemsize bytes in the published little-endian layout -> deserialize restores exactly the span; symbolic default value through "
-                             "serialize_default -> request_property (decode_one)" % name))
+        big = cid >= 18   # vector codecs (8..32 bytes per element): 2 elements in the quick tier, 3 in the thorough tier
+        for tier, nel in (("quick", 2 if big else 3), ("thorough", 3)):
+            if tier == "thorough" and not big: continue
+            J.append(dict(name="propcodec-%s%s" % (name, "" if tier == "quick" else "-n3"), harness="C06_propcodecs.cpp", units=_IO_PC6, unwind=64, eh=True, checks="mem",
+                          timeout=300 if tier == "quick" else 1500, mem_gb=6, tiers=[tier] if big else ["quick", "thorough"],
+                          defines=["CODEC=%d" % cid, "NELEM=%d" % nel], ll2c_flags=["--drop-ctor=PropertyCodecs.cc"], entries=["harness_roundtrip_n", "harness_roundtrip_default"],
+                          bounds="codec '%s': property of %d elements with symbolic values (floating point as arbitrary bit patterns incl. NaNs), symbolic span {first,count}: serialize -> "
+                                 "count*elemsize bytes in the published little-endian layout -> deserialize restores exactly the span; symbolic default value through "
+                                 "serialize_default -> request_property (decode_one)" % (name, nel)))
     return J
 
 if "C06" not in PROPS:
